@@ -245,8 +245,8 @@ CLAIMS = {
         note='No contract within reach states "inverse of the CPython compiler" for all code objects; this is the function\'s postcondition checked on a finite family. Rejections are allowed by the property and are counted in the evidence.'),
     'C27': dict(
         category='other',
-        text='BOUNDED stand-in (never counted as proved): the real code end to end on SQLite over 4 hierarchies (linear chain, diamond, custom string discriminator, custom integer '
-             'discriminator) with one stored object per class: reached in a later session in 12 ways (by key through every ancestor, get / select / generator on the root, through a to-one '
+        text='BOUNDED stand-in (never counted as proved): the real code end to end on SQLite over 5 hierarchies (linear chain, diamond, custom string discriminator, custom integer discriminators incl. the value 0 for the base class; '
+             'discriminator) with one stored object per class: reached in a later session (a fresh session per object) in 16 ways (by key through every ancestor, get / select / generator on the root, through a to-one '
              'reference, through a collection, as an unloaded reference loaded on attribute access, select_by_sql, prefetch, projection, get by unique name) the object has its creation '
              'class and identity; through a class it does not belong to it is not found; E.select(), count, exists and isinstance(x, T) / not isinstance / tuple forms / isinstance on a '
              'related object inside queries agree with Python isinstance for every class and pair of classes.',
